@@ -102,6 +102,7 @@ func GenBase(r *rng.R, c Cfg) *World {
 			wl.NPods = r.Range(1, 3)
 			wl.OwnerKind = rng.Pick(r, []string{KReplicaSet, KStatefulSet, KDaemonSet, KJob})
 			wl.ExtraOwners = rng.Pick(r, []string{"", "", "", "before-false", "after-false", "before-omitted", "after-omitted"})
+			wl.MixedOwnerAPI = wl.NPods >= 2 && r.P(0.3)
 		}
 		w.Workloads = append(w.Workloads, wl)
 	}
